@@ -486,10 +486,13 @@ class View(Arr):
 
     def write(self, cond, val):
         off, n = self.off, self.n
-        self.base.write(
-            lambda j: alg.and_(in_range(alg.sub(j, off), n), cond(alg.sub(j, off))),
-            lambda j: val(alg.sub(j, off)),
-        )
+        def c2(j):
+            r = in_range(alg.sub(j, off), n)
+            if r is False:
+                return False  # concrete reading: do not evaluate cond outside the view
+            return alg.and_(r, cond(alg.sub(j, off)))
+
+        self.base.write(c2, lambda j: val(alg.sub(j, off)))
 
     def copy(self):
         return Arr(self.n, self.kind, _freeze(self), self.unit)
